@@ -247,6 +247,17 @@ def make_replay(pid, v, repo, here, known_entry=None, seed=0):
                     rec['witness_search'] = f'{fam}: no panic/hang/abort among the candidates tried'
             else:
                 rec['witness_search'] = 'replay crate does not build against the current tree'
+        elif fam and fam.startswith('enum:'):
+            if build_replay(here) == 0:
+                r = run_replay(here, fam, [])
+                rec['witness_search'] = f'small-value enumerator {fam}'
+                rec['observed_on_real_code'] = r
+                rec['replay_cmd'] = f'{replay_bin(here)} {fam}'
+                if r['outcome'] != 'ok':
+                    rec['failing_input_found'] = True
+                    rec['input'] = r['output']
+            else:
+                rec['witness_search'] = 'replay crate does not build against the current tree'
         else:
             rec['witness_search'] = 'no witness enumerator for this obligation family'
     else:
